@@ -424,7 +424,40 @@ def c16():
     }
 
 
+def c08():
+    obs = []
+    L = {"closure": 66, "roots_of": 66, "ref_shift": 66, "ref_leaf_shift": 66, "check_caches": 66, "prune_list_iterators": 70, "select": 10}
+    PL = "K maximal pruned subtrees at symbolic positions < %d (pairwise disjoint, no complete sibling pair) with the defining prefix sums in both caches"
+    for k, lim, tiers in [(0, 31, "qt"), (1, 31, "qt"), (2, 31, "qt"), (3, 31, "qt"), (2, 63, "t"), (3, 63, "t"), (4, 63, "t")]:
+        e = {"VH_K": k, "VH_LIM": lim}
+        tag = "_k%d_l%d" % (k, lim)
+        R = {"PruneList::append": 7 if lim == 63 else 6}
+        st = "pre-state: K = %d, " % k + PL % lim
+        obs.append(ob("c08::prune_list_queries", tiers, 8, "from ANY valid prune-list state: is_pruned / is_pruned_root / get_shift / get_leaf_shift / totals / len equal the definition (maximal pruned subtrees; nodes and leaves removed at or before pos)", st + "; probe symbolic", env=e, tag=tag, est=120, loops=L, allow_unsat=["probe inside a pruned subtree", "unpruned probe to the right of a pruned subtree"] if k == 0 else []))
+        obs.append(ob("c08::prune_list_append_step", tiers, 8, "INDUCTIVE STEP: one PruneList::append from any valid state (roll-up of siblings, clean-up of swallowed entries) yields a valid state for the enlarged pruned set: all queries and both caches equal the definition", st + "; appended position symbolic, right of every root", env=e, tag=tag, est=300, loops=L, recurse=R, allow_unsat=["appended subtree swallows existing entries", "appended position rolled up into an ancestor"] if k == 0 else []))
+        if k > 0:
+            obs.append(ob("c08::prune_list_init_caches", tiers, 8, "init_caches (reopen) rebuilds exactly the defining caches from the bitmap", st, env=e, tag=tag, est=200, loops=dict(L, **{"build_shift_cache": k + 2, "build_leaf_shift_cache": k + 2})))
+        if False:
+            obs.append(ob("c08::prune_list_iterators", tiers, 8, "unpruned_iter / unpruned_leaf_iter / iter / pruned_bintree_range_iter enumerate exactly the unpruned positions / leaves / roots / pruned ranges", st + "; cutoff symbolic", env=e, tag=tag, est=300, loops=dict(L, prune_list_iterators=lim + 3), recurse={"next": k + 3}))
+    for k, lim, tiers in [(1, 15, "x"), (2, 15, "x")]:
+        e = {"VH_K": k, "VH_LIM": lim}
+        obs.append(ob("c08::prune_list_iterators", tiers, 8, "[ATTEMPT: 660 s / 18 GB not enough even on 15 positions] unpruned_iter / unpruned_leaf_iter / iter / pruned_bintree_range_iter enumerate exactly the unpruned positions / leaves / roots / pruned ranges",
+                      "pre-state: K = %d, " % k + PL % lim + "; cutoff symbolic", env=e, tag="_k%d_l%d" % (k, lim), est=300, loops=dict(L, prune_list_iterators=lim + 3), recurse={"next": k + 3}, mem_est_gb=12))
+    for k, lim, tiers in [(1, 31, "t"), (2, 31, "t")]:
+        obs.append(ob("c08::prune_list_new_matches_definition", tiers, 8, "PruneList::new over K ascending disjoint subtrees (siblings allowed: roll-up inside new) equals the definition", "K = %d positions < %d, symbolic" % (k, lim), env={"VH_K": k, "VH_LIM": lim}, tag="_k%d_l%d" % (k, lim), est=900, loops=dict(L, **{"PruneList3new": k + 2}), recurse={"PruneList::append": 6}, mem_est_gb=20))
+    return {
+        "obligations": obs,
+        "stubs": BASE_STUBS + ["E6 croaring::Bitmap -> 64-value bitset (new, add, remove, contains, rank, select, maximum, minimum, cardinality, is_empty, remove_range, add_range, or_inplace, and, andnot, flip, range_cardinality, run_optimize, clone, cursor at_first/move_next): CRoaring itself (C) is trusted to implement a set of u32",
+                               "E12 allocation stub: concrete 64-byte blocks, realloc in place (Vec growth creates no new heap objects)"],
+        "explanation": "Bounded proof over store::prune_list::PruneList by induction on its operations: the representation invariant (maximal pruned subtrees + defining prefix sums) is the symbolic pre-state, one real operation is run, and every observable is compared with the definition.",
+        "bounds": "universe = perfect tree of 31 positions (quick) / 63 positions (thorough); number of entries in the pre-state concrete per query (0..3 quick, ..4 thorough), their positions symbolic",
+        "outside": "prune lists with more entries than the stated K; the file layer (AppendOnlyFile/DataFile, write_tmp_pruned, replace_with_tmp), PMMRBackend read-path index translation and check_compact sequencing, reopen from a real file, chain-level compaction: all need real files",
+        "assumptions": ["CRoaring implements a set of u32 correctly", "hook PruneList::verif_from_parts (cfg(any(kani, grin_verif))) only assembles the struct"],
+    }
+
+
 PLAN = {
+    "C08": c08(),
     "C01": c01(),
     "C04": c04(),
     "C05": c05(),
